@@ -487,17 +487,17 @@ fn run_csr<Ty: EdgeType + CsrDir<Ix>, Ix: IndexType>(name: &'static str, visit: 
                 Err(p) => bail!(kind, "observe-panic", "a query panicked after {}: {}", kind, p),
             }
         } else {
-            let agrees = catch(|| observe_csr(&g, &m, &mut obs_rng)).map(|r| r.is_ok()).unwrap_or(false);
-            if !agrees {
-                acc.probe("visit_run_discarded_model_mismatch");
-                return Exec { violation: None, nontrivial: false };
-            }
             if m.nodes.len() <= 14 || obs_rng.chance(1, 6) {
                 match catch(|| Ty::visit(&g, cfg.obs_seed ^ step as u64)) {
                     Ok(Ok(())) => {}
                     Ok(Err((c, d))) => bail!("visit", c, "{}", d),
                     Err(p) => bail!("visit", "panic", "a visit-trait call panicked after {}: {}", kind, p),
                 }
+            }
+            let agrees = catch(|| observe_csr(&g, &m, &mut obs_rng)).map(|r| r.is_ok()).unwrap_or(false);
+            if !agrees {
+                acc.probe("visit_run_discarded_model_mismatch");
+                return Exec { violation: None, nontrivial: false };
             }
         }
         acc.state(m.hash());
@@ -742,7 +742,17 @@ fn run_list<Ix: IndexType>(name: &'static str, visit: bool, cfg: &ListCfg, mut f
                                 remembered.push((e, a, rank));
                                 edges_added += 1;
                             } else {
-                                // which of several parallel edges is updated: learn it from the weight
+                                // lookups by endpoints resolve in insertion order: the edge that is
+                                // updated must be the one find_edge reports (the first a -> b inserted)
+                                let first = existing[0];
+                                let found = catch(|| g.find_edge(Ix::new(a), Ix::new(b))).ok().flatten();
+                                if found != Some(e) {
+                                    bail!(kind, "updated-other-than-found", "update_edge({}, {}) returned an index different from the one find_edge({}, {}) reports", a, b, a, b);
+                                }
+                                let listing_now: Vec<u32> = IntoEdges::edges(&g, Ix::new(a)).map(|e| *e.weight()).collect();
+                                if listing_now.get(first) != Some(&w) {
+                                    bail!(kind, "updated-not-first", "update_edge({}, {}) did not update the first inserted edge (rank {}): row weights {:?}", a, b, first, listing_now);
+                                }
                                 special += 1;
                                 let hit = existing.iter().copied().find(|&i| {
                                     let idx = remembered.iter().find(|r| r.1 == a && r.2 == i).map(|r| r.0);
@@ -842,6 +852,10 @@ fn run_list<Ix: IndexType>(name: &'static str, visit: bool, cfg: &ListCfg, mut f
                         Some(e) => {
                             let ends = g.edge_endpoints(e).map(|(x, y)| (x.index(), y.index()));
                             ensure!("find_edge", exists && ends == Some((a, b)), "find_edge({}, {}) = Some(index with endpoints {:?}), model exists = {}", a, b, ends, exists);
+                            // insertion order: the first a -> b edge of the row
+                            let first = rows[a].iter().position(|x| x.0 == b).unwrap();
+                            let first_id = g.edge_indices_from(Ix::new(a)).nth(first);
+                            ensure!("find_edge_first", first_id == Some(e), "find_edge({}, {}) does not return the first inserted edge (rank {})", a, b, first);
                         }
                         None => ensure!("find_edge", !exists, "find_edge({}, {}) = None but the edge exists", a, b),
                     }
@@ -873,14 +887,14 @@ fn run_list<Ix: IndexType>(name: &'static str, visit: bool, cfg: &ListCfg, mut f
             }
         };
         if visit {
-            if !agrees {
-                acc.probe("visit_run_discarded_model_mismatch");
-                return Exec { violation: None, nontrivial: false };
-            }
             match catch(|| super::visit::check_list(&g, cfg.obs_seed ^ step as u64)) {
                 Ok(Ok(())) => {}
                 Ok(Err((c, d))) => bail!("visit", c, "{}", d),
                 Err(p) => bail!("visit", "panic", "a visit-trait call panicked after {}: {}", kind, p),
+            }
+            if !agrees {
+                acc.probe("visit_run_discarded_model_mismatch");
+                return Exec { violation: None, nontrivial: false };
             }
         }
         let mut h = StateHasher::new();
